@@ -176,6 +176,21 @@ class HSeq:
         return HSeq(self.len, self.get, self.numpy, self.etype, self.note)
 
 
+class H2D:
+    """2-D numpy array: rows, cols terms + meta-level element function get(i, j)."""
+
+    def __init__(self, rows, cols, get, etype=None, note=None):
+        self.rows = z3.IntVal(rows) if isinstance(rows, int) else rows
+        self.cols = z3.IntVal(cols) if isinstance(cols, int) else cols
+        self.get = get
+        self.etype = etype
+        self.note = note
+        self.numpy = True
+
+    def copy(self):
+        return H2D(self.rows, self.cols, self.get, self.etype, self.note)
+
+
 class HDict:
     """Dictionary with Label/Int keys: has(k) -> Bool term, val(k) -> V, plus an insertion-order
     list (HSeq of keys) when order is observable."""
@@ -215,6 +230,7 @@ T.fn = T("fn")
 T.none = T("none")
 T.list = lambda e: T("list", e)
 T.arr = lambda e: T("arr", e)
+T.arr2 = lambda e: T("arr2", e)
 T.tuple = lambda *es: T("tuple", *es)
 T.opt = lambda e: T("opt", e)
 
@@ -245,6 +261,9 @@ def type_of(v, heap=None):
             if et is None:
                 et = type_of(o.get(z3.IntVal(0)), heap)
             return T("arr" if o.numpy else "list", et)
+        if isinstance(o, H2D):
+            et = o.etype or type_of(o.get(z3.IntVal(0), z3.IntVal(0)), heap)
+            return T("arr2", et)
     if isinstance(v, VConc):
         return T("conc", v)
     raise Unsupported("type_of(%r)" % (v,))
